@@ -11,8 +11,33 @@ static void __CPROVER_assert(int c, const char *m) { if (!c) { fflush(stdout); f
 static void __CPROVER_assume(int c) { if (!c) { fflush(stdout); fprintf(stderr, "VF_ASSUME_VIOLATED\n"); exit(77); } }
 #endif
 
+/* ---------------- lock discipline (C03 b): with -DVF_DISCIPLINE every translated load/store/atomic access additionally asserts that an access to
+   protected memory (objects registered with vf_protect, and heap blocks allocated while their lock was held) happens with that lock held */
+struct rt_prot { const void *base; const int *lock; };
+struct rt_prot rt_prots[32]; int rt_nprot; int rt_discipline;
+#if defined(__CPROVER__) && defined(VF_DISCIPLINE)
+static void rt_access(const void *p) {
+  int i;
+  if (!rt_discipline) return;
+  for (i = 0; i < rt_nprot; i++)
+    if (__CPROVER_same_object(p, rt_prots[i].base))
+      __CPROVER_assert(*rt_prots[i].lock == 1, "C03 lock discipline: state of a lock-protected component accessed without holding its mutex");
+}
+#define RT_ACC(p) rt_access((const void*)(p))
+#else
+#define RT_ACC(p) do { } while (0)
+#endif
+void vf_protect(void *obj, void *lock) { if (rt_nprot < 32) { rt_prots[rt_nprot].base = obj; rt_prots[rt_nprot].lock = (const int*)lock; rt_nprot++; } rt_discipline = 1; }
+void vf_unprotect_all(void) { rt_nprot = 0; rt_discipline = 0; }
+static void rt_prot_note_alloc(void *p) {
+  int i, n = rt_nprot;
+  if (!rt_discipline) return;
+  for (i = 0; i < n; i++)
+    if (*rt_prots[i].lock == 1 && rt_nprot < 32) { rt_prots[rt_nprot].base = p; rt_prots[rt_nprot].lock = rt_prots[i].lock; rt_nprot++; break; }
+}
+
 #ifdef __CPROVER__
-#define RT_CHK(p, n) do { __CPROVER_assert(__CPROVER_rw_ok((p), (n)), "memory: invalid/freed/out-of-bounds access"); __CPROVER_assume(__CPROVER_rw_ok((p), (n))); } while (0)
+#define RT_CHK(p, n) do { __CPROVER_assert(__CPROVER_rw_ok((p), (n)), "memory: invalid/freed/out-of-bounds access"); __CPROVER_assume(__CPROVER_rw_ok((p), (n))); RT_ACC(p); } while (0)
 #else
 #define RT_CHK(p, n) do { } while (0)
 #endif
@@ -72,12 +97,14 @@ static void *rt_new(uint64_t n) {
   __CPROVER_assume(p != 0);
   rt_live_allocs++; rt_total_allocs++;
   if (rt_counting) rt_count_allocs++;
+  rt_prot_note_alloc(p);
   return p;
 }
 static void rt_new_note(void *p) {
   __CPROVER_assume(p != 0);
   rt_live_allocs++; rt_total_allocs++;
   if (rt_counting) rt_count_allocs++;
+  rt_prot_note_alloc(p);
 }
 static void rt_delete(void *p) {
   if (p) { rt_live_allocs--; free(p); }
@@ -176,8 +203,10 @@ static void rt_trap(void) { __CPROVER_assert(0, "rt: llvm.trap"); __CPROVER_assu
 static void rt_terminate(void) { __CPROVER_assert(0, "rt: std::terminate called"); __CPROVER_assume(0); }
 
 /* ---------------- pthread mutex: first word of the object is the lock flag */
+int rt_parking;  /* cooperative thread model below: set while a parked thread's frames are being left */
 static int rt_mutex_lock(void *m) {
   int *st = (int*)m;
+  __CPROVER_assert(!rt_parking, "rt: model limitation: a parked thread kept running (wait reached through an indirect call)");
   __CPROVER_assert(*st == 0, "rt: std::mutex locked twice by the only thread (self-deadlock)");
   __CPROVER_assume(*st == 0);   /* the thread never gets past a self-deadlock: report it once, do not explore what cannot run */
   *st = 1; return 0;
@@ -192,7 +221,8 @@ static int rt_ret0(void) { return 0; }
 static void rt_nop(void) { }
 static void rt_throw_lib(void) { __CPROVER_assert(0, "rt: libstdc++ __throw_* (length_error/bad_alloc/...)"); __CPROVER_assume(0); }
 
-static unsigned long rt_pthread_self(void) { return 1; }
+int rt_cur;   /* current modelled thread (cooperative thread model below): 0 = the harness (main) thread */
+static unsigned long rt_pthread_self(void) { return 1 + (unsigned long)rt_cur; }
 static int rt_errno; static int *rt_errno_location(void) { return &rt_errno; }
 static int rt_strcmp(const void *a, const void *b) {
   const unsigned char *x = a, *y = b; int i;
@@ -242,3 +272,116 @@ static int rt_cond_timedwait(void *c, void *m, void *ts) {
   return 110; /* ETIMEDOUT */
 }
 static int rt_cond_clockwait(void *c, void *m, long clk, void *ts) { return rt_cond_timedwait(c, m, ts); }
+
+/* ---------------- cooperative thread model (C11). A std::thread is an entry of a table holding its start closure; it does not run by
+   itself: the harness (or a join) runs it with vf_thread_run(i) as an ordinary call on the single modelled CPU, until its function
+   returns (finished) or it reaches std::condition_variable::wait (parked). Parking sets rt_parking; the translator makes every frame
+   between the wait and rt_thread_run return at once, without landing pads (the wait released the mutex). A parked thread that was
+   notified is run again by calling its start function again from the beginning. MODEL ASSUMPTION (stated in the evidence): the
+   thread function reaches the wait with no live state other than the lock it re-acquires, so "continue after the wait" and "start
+   over" are the same behaviour (true of cocls::thread_pool::worker(): `_current = this`, lock, re-evaluate the predicate).
+   A parked thread only becomes runnable through notify_one/notify_all issued after it parked (lost notifications stay visible);
+   spurious wake-ups are not modelled. notify_one wakes the parked thread with the lowest (mode 0) or highest (mode 1) index.
+   join(t) runs t (and, while t is not runnable, other runnable threads) until t has finished; nothing runnable = deadlock.
+   thread_local variables have one copy per modelled thread (translator: g[rt_cur]); their destructors run when the thread finishes. */
+#define RT_MAXT 4
+enum { RT_T_NONE = 0, RT_T_READY = 1, RT_T_PARKED = 2, RT_T_WOKEN = 3, RT_T_RUNNING = 4, RT_T_FINISHED = 5 };
+int rt_parking;
+int rt_nthreads;
+int rt_t_state[RT_MAXT + 1];
+int rt_t_detached[RT_MAXT + 1];
+void *rt_t_closure[RT_MAXT + 1];
+void *rt_t_cond[RT_MAXT + 1];
+void *rt_t_atexit_fn[RT_MAXT + 1][2]; void *rt_t_atexit_obj[RT_MAXT + 1][2]; int rt_t_atexit_n[RT_MAXT + 1];
+int rt_cond_pick;
+extern void rt_thread_invoke(void *state);            /* generated: state->_M_run() */
+extern void rt_thread_dispose(void *state);           /* generated: delete state */
+extern void rt_call_atexit(void *fn, void *obj);      /* generated: fn(obj) */
+
+static int rt_thread_atexit(void *fn, void *obj) {
+  if (rt_cur == 0) return 0;     /* main thread: never torn down (allocation baselines are taken after warm-up) */
+  int n = rt_t_atexit_n[rt_cur];
+  __CPROVER_assert(n < 2, "rt: more than 2 thread_local destructors in a modelled thread"); __CPROVER_assume(n < 2);
+  rt_t_atexit_fn[rt_cur][n] = fn; rt_t_atexit_obj[rt_cur][n] = obj; rt_t_atexit_n[rt_cur] = n + 1;
+  return 0;
+}
+static unsigned rt_hw_concurrency(void) { return 0; }
+static void rt_thread_start(void *thr, void *uptr) {
+  __CPROVER_assert(rt_nthreads < RT_MAXT, "rt: more than RT_MAXT modelled threads"); __CPROVER_assume(rt_nthreads < RT_MAXT);
+  int i = ++rt_nthreads;
+  rt_t_state[i] = RT_T_READY; rt_t_detached[i] = 0; rt_t_atexit_n[i] = 0;
+  rt_t_closure[i] = *(void**)uptr; *(void**)uptr = 0;
+  *(uint64_t*)thr = 1 + (uint64_t)i;       /* std::thread::id == pthread_self() of the new thread */
+}
+int vf_thread_count(void) { return rt_nthreads; }
+int vf_thread_self(void) { return rt_cur; }
+int vf_thread_state(int i) { return (i >= 1 && i <= rt_nthreads) ? rt_t_state[i] : RT_T_NONE; }
+int vf_thread_detached(int i) { return (i >= 1 && i <= rt_nthreads) ? rt_t_detached[i] : 0; }
+int vf_thread_runnable(int i) { return i >= 1 && i <= rt_nthreads && (rt_t_state[i] == RT_T_READY || rt_t_state[i] == RT_T_WOKEN); }
+void vf_cond_pick(int mode) { rt_cond_pick = mode; }
+void vf_thread_run(int i) {
+  __CPROVER_assert(vf_thread_runnable(i), "VF_SPEC vf_thread_run of a thread that is not runnable"); __CPROVER_assume(vf_thread_runnable(i));
+  __CPROVER_assert(!rt_parking, "rt: model limitation: a parked thread kept running");
+  int prev = rt_cur;
+  rt_cur = i; rt_t_state[i] = RT_T_RUNNING;
+  rt_thread_invoke(rt_t_closure[i]);
+  if (rt_parking) {
+    rt_parking = 0;                         /* rt_cond_wait left the state PARKED */
+  } else {
+    __CPROVER_assert(!rt_exc_pending, "rt: exception leaves a thread function (std::terminate)"); __CPROVER_assume(!rt_exc_pending);
+    rt_thread_dispose(rt_t_closure[i]); rt_t_closure[i] = 0;
+    while (rt_t_atexit_n[i] > 0) { int n = --rt_t_atexit_n[i]; rt_call_atexit(rt_t_atexit_fn[i][n], rt_t_atexit_obj[i][n]); }
+    rt_t_state[i] = RT_T_FINISHED;
+  }
+  rt_cur = prev;
+}
+static void rt_cond_wait(void *cv, void *ulock) {
+  int *st = *(int**)ulock;                  /* std::unique_lock { mutex *_M_device; bool _M_owns; } */
+  __CPROVER_assert(*st == 1, "rt: condition_variable::wait while the mutex is not locked");
+  if (rt_cur == 0) {
+    __CPROVER_assert(0, "rt: condition_variable::wait in the main thread with its predicate false (blocks forever in this model)");
+    __CPROVER_assume(0);
+  }
+  *st = 0;
+  rt_t_state[rt_cur] = RT_T_PARKED; rt_t_cond[rt_cur] = cv;
+  rt_parking = 1;
+}
+static void rt_cond_notify_all(void *cv) {
+  int i;
+  for (i = 1; i <= RT_MAXT; i++) if (i <= rt_nthreads && rt_t_state[i] == RT_T_PARKED && rt_t_cond[i] == cv) rt_t_state[i] = RT_T_WOKEN;
+}
+static void rt_cond_notify_one(void *cv) {
+  int i, pick = 0;
+  for (i = 1; i <= RT_MAXT; i++)
+    if (i <= rt_nthreads && rt_t_state[i] == RT_T_PARKED && rt_t_cond[i] == cv && (pick == 0 || rt_cond_pick == 1)) pick = i;
+  if (pick) rt_t_state[pick] = RT_T_WOKEN;
+}
+static void rt_thread_join(void *thr) {
+  uint64_t id = *(uint64_t*)thr;
+  __CPROVER_assert(id >= 2 && id <= 1 + (uint64_t)rt_nthreads, "rt: join of a std::thread that is not joinable (std::system_error)");
+  __CPROVER_assume(id >= 2 && id <= 1 + (uint64_t)rt_nthreads);
+  int i = (int)(id - 1), k, u, r;
+  __CPROVER_assert(i != rt_cur, "rt: a thread joins itself (deadlock)"); __CPROVER_assume(i != rt_cur);
+  for (k = 0; k < 2 * RT_MAXT && rt_t_state[i] != RT_T_FINISHED; k++) {
+    if (vf_thread_runnable(i)) { vf_thread_run(i); continue; }
+    if (rt_t_state[i] == RT_T_RUNNING) {
+      __CPROVER_assert(0, "rt: join of a thread that is itself waiting for the joining thread (deadlock)"); __CPROVER_assume(0);
+    }
+    r = 0;
+    for (u = 1; u <= RT_MAXT; u++) if (!r && vf_thread_runnable(u)) r = u;
+    if (!r) {
+      __CPROVER_assert(0, "rt: join blocks forever: the thread is parked in condition_variable::wait and nothing can notify it (deadlock)");
+      __CPROVER_assume(0);
+    }
+    vf_thread_run(r);
+  }
+  __CPROVER_assert(rt_t_state[i] == RT_T_FINISHED, "rt: join did not complete within the model's bound"); __CPROVER_assume(rt_t_state[i] == RT_T_FINISHED);
+  *(uint64_t*)thr = 0;
+}
+static void rt_thread_detach(void *thr) {
+  uint64_t id = *(uint64_t*)thr;
+  __CPROVER_assert(id >= 2 && id <= 1 + (uint64_t)rt_nthreads, "rt: detach of a std::thread that is not joinable (std::system_error)");
+  __CPROVER_assume(id >= 2 && id <= 1 + (uint64_t)rt_nthreads);
+  rt_t_detached[(int)(id - 1)] = 1;
+  *(uint64_t*)thr = 0;
+}
